@@ -1,5 +1,5 @@
 (* C21 — property theorems only. Statements are pinned by props/C21.json. *)
-From PV Require Import Lib.Base C21.Model C21.Proofs.
+From PV Require Import Lib.Base Cbor.Item Cbor.Enc Cbor.Dec C21.Model C21.CborCodec C21.Proofs C21.CborProofs.
 Open Scope Z_scope.
 
 (* old stack (ChannelBuffer::recv_full_msg): for every codec meeting P0..P3, every
@@ -49,3 +49,47 @@ Proof. intros M valid enc dec Hco ms. exact (send_recv_ok valid enc dec Hco ms).
 Theorem chunks_is_split : forall n l, (0 < n)%nat ->
   concat (chunks n l) = l /\ Forall (fun c => c <> [] /\ (length c <= n)%nat) (chunks n l).
 Proof. intros n l Hn. split; [now apply concat_chunks|now apply chunks_fuel_bounds]. Qed.
+
+(* the obligations are not decoration: a decoder that turns the empty buffer
+   into a message (pre-fix localtxsubmission: RejectTx "") makes one empty
+   segment deliver a message nobody sent; a decoder that accepts a cut-off
+   buffer (pre-fix txmonitor: "82 06" read as ResponseNextTx(None)) delivers a
+   wrong first message *)
+Theorem empty_segment_spurious_message :
+  forall (M : Type) (dec : list Z -> dec_result M) (m : M),
+  dec [] = DecOk m 0 -> recv_all dec [[]] = ([m], Ok []).
+Proof. intros M dec m. exact (empty_segment_spurious dec m). Qed.
+
+Theorem short_read_delivers_wrong_message :
+  forall (M : Type) (dec : list Z -> dec_result M) (m' : M) (p s : list Z),
+  p <> [] -> dec p = DecOk m' (length p) -> exists rest fin, recv_all dec [p; s] = (m' :: rest, fin).
+Proof. intros M dec m' p s. exact (short_read_wrong_message dec m' p s). Qed.
+
+(* ---- the obligations are satisfiable: the generic codec "one well-formed CBOR
+   item" of the shared CBOR core (definite/indefinite containers, tags, nested
+   byte strings, non-minimal heads) meets P0..P3; this is also the decoder the
+   differential tie runs against the real message decoders. *)
+Theorem cbor_item_codec_ok : codec_ok (fun i => wf_item i = true) encode_item item_dec.
+Proof. exact item_codec_ok. Qed.
+
+Theorem reassembly_split_indep_cbor : forall items segs,
+  Forall (fun i => wf_item i = true) items -> concat segs = concat (map encode_item items) ->
+  recv_all item_dec segs = (items, Ok []).
+Proof. intros items segs. exact (recv_all_ok item_valid encode_item item_dec item_codec_ok items segs). Qed.
+
+Theorem reassembly_split_indep_net2_cbor : forall raw items segs,
+  supported_channel (strip_mode raw) = true ->
+  Forall (fun i => wf_item i = true) items -> concat segs = concat (map encode_item items) ->
+  read_all any_chan_dec (map (fun s => (raw, s)) segs) = Ok (map (fun i => (strip_mode raw, i)) items, []).
+Proof. intros raw items segs. exact (read_all_cbor_ok raw items segs). Qed.
+
+(* non-vacuity: keepalive [0, 513], [2] and blockfetch [4, 24(h'0102')] cut inside
+   heads, with an empty and a 1-byte segment, on both stacks *)
+Example reassembly_example :
+  let ms := [Array W0 [UInt W0 0; UInt W16 513]; Array W0 [UInt W0 2];
+             Array W0 [UInt W0 4; Tag W8 24 (Bytes W0 [1; 2])]] in
+  let segs := [[130; 0; 25]; [2]; []; [1; 129; 2; 130; 4; 216]; [24; 66; 1]; [2]] in
+  Forall (fun i => wf_item i = true) ms /\ concat segs = concat (map encode_item ms) /\
+  recv_all item_dec segs = (ms, Ok []) /\
+  read_all any_chan_dec (map (fun s => (32776, s)) segs) = Ok (map (fun i => (8, i)) ms, []).
+Proof. cbv zeta. split; [repeat constructor|]. split; [reflexivity|]. split; vm_compute; reflexivity. Qed.
